@@ -31,11 +31,11 @@ CHECKS = {
          'For every accepted string of the E1 spaces ParseVector(s).Vector() is the reference canonical spelling, parse-then-serialise is idempotent, the returned string does not change when other objects are serialised afterwards, and the result does not depend on which one-metric neighbour was serialised just before.',
          'Trusted: reference canonical serialiser.', '5 C08, 4 E1'),
  'C09': ('objspace', 'exhaustive enumeration of an abbreviation x value alphabet on several states + state invariants on all swept states',
-         'Get/Set accept exactly table members over an alphabet of ~thousands of abbreviations x values (all edit-distance-1 strings); every swept state is well formed (legal Get, canonical Vector, scoring without panic).',
+         'Get/Set accept exactly table members over an alphabet of thousands of abbreviations x values (all edit-distance-1 strings, look-alike runes, padded lengths); every swept state is well formed (legal Get, grammatical and faithful Vector, scoring without panic).',
          'Trusted: tables in mc/spec/tables.go. Strings further than one byte edit from legal ones are represented by variants only.', '5 C09, 4 E2'),
- 'C10': ('scorespace', 'deviation-bounded exhaustive lifting: every effective class x every alternative representation within the bound, against the exact models',
+ 'C10': ('scorespace', 'deviation-bounded exhaustive lifting, differential: every effective class x every alternative representation within the bound against the implementation\'s own score table of the canonical representatives',
          'Scores depend on overridable metrics only through effective values, defaults score as the specification says, supplemental metrics are ignored: checked for every class and every representation with <= k deviations (k=1 quick, k=2 thorough) plus all-overridden patterns.',
-         'Trusted: exact models of C03/C04. Representations with more deviations than the bound are covered only by the all-overridden patterns.', '5 C10, 4 E3'),
+         'No model is involved: the oracle is the implementation\'s own canonical score table (tied to the specification by C03/C04). Representations with more deviations than the bound are covered only by the all-overridden patterns.', '5 C10, 4 E3'),
  'C11': ('scorespace', 'exhaustive enumeration of classes/assignments; format predicate on every returned score',
          'Every score returned on the complete v2 space, all v3 classes and all v4 classes (canonical and overridden representations) is finite, exactly k/10, in range, accepted by Rating; no panic.',
          'Representation independence (C10) carries the result to the remaining objects.', '5 C11, 4 E3'),
